@@ -88,6 +88,9 @@ def _ops():
     ops["Bits('0b00100').unpack('ue')"] = lambda: bitstring.Bits('0b00100').unpack('ue')
     ops["BitStream('0xa5c3').readlist('uint:a, bin:b', a=3, b=5)"] = lambda: bitstring.BitStream('0xa5c3').readlist('uint:a, bin:b', a=3, b=5)
     ops["Bits('0xa5').find('0b101')"] = lambda: bitstring.Bits('0xa5').find('0b101')
+    ops["BitArray() + '0x5a, 0b1'"] = lambda: bitstring.BitArray() + '0x5a, 0b1'
+    ops["'uint:8=200' + BitStream()"] = lambda: 'uint:8=200' + bitstring.BitStream()
+    ops["BitArray('0b1') + '0x5a, 0b1'"] = lambda: bitstring.BitArray('0b1') + '0x5a, 0b1'
     ops["Dtype('uint8')"] = lambda: bitstring.Dtype('uint8')
     ops["Dtype(Dtype('uint8'), scale=4)"] = lambda: bitstring.Dtype(bitstring.Dtype('uint8'), scale=4)
     ops["Dtype(Array('uint8').dtype, 16)"] = lambda: bitstring.Dtype(bitstring.Array('uint8').dtype, 16)
@@ -275,5 +278,5 @@ def _ops_names():
             "pack('uint:4, uint:4', 1, 2)", "pack(['uint:8', 'hex:4'], 7, 'f')", "pack('uint:8', 7)", "pack(['uint:n', 'bool', 'int:4'], 7, True, -3, n=8)",
             "Bits('0xa5c3').unpack(['uint:4', 'bits:4, hex'])", "BitStream('0xa5c3').readlist(['uint:4', 'hex:4'])", "pack('uint:n=v', n=8, v=3)", "pack('ue, se', 3, -1)", "pack('>HB', 1, 2)", "Bits('0xa5c3').unpack('uint:4, bits:4, hex')",
             "Bits('0b00100').unpack('ue')", "BitStream('0xa5c3').readlist('uint:a, bin:b', a=3, b=5)", "Bits('0xa5').find('0b101')", "Dtype('uint8')", "Dtype('e4m3mxfp', scale=4)",
-            "Dtype('float', 16)", "Dtype(Dtype('uint8'), scale=4)", "Dtype(Array('uint8').dtype, 16)", "Bits('0x02').unpack('uint8')", "Array('uint8', [1, 2])", "Dtype('ue')", "Dtype(' int : 5 ')", "Dtype('e4m3mxfp').build(1000.0)", "Array('>H', [1, 2])", "Array(Dtype('e2m1mxfp', scale='auto'), [0.5, 40.0])",
+            "BitArray() + '0x5a, 0b1'", "'uint:8=200' + BitStream()", "BitArray('0b1') + '0x5a, 0b1'", "Dtype('float', 16)", "Dtype(Dtype('uint8'), scale=4)", "Dtype(Array('uint8').dtype, 16)", "Bits('0x02').unpack('uint8')", "Array('uint8', [1, 2])", "Dtype('ue')", "Dtype(' int : 5 ')", "Dtype('e4m3mxfp').build(1000.0)", "Array('>H', [1, 2])", "Array(Dtype('e2m1mxfp', scale='auto'), [0.5, 40.0])",
             "Bits('0b1').pp-free str"]
